@@ -240,7 +240,7 @@ def TraitItem.print (t : TraitItem) : Toks :=
   printAttrs t.attrs ++ t.vis ++
   (if t.unsafe_ then [i "unsafe"] else []) ++ (if t.auto_ then [i "auto"] else []) ++
   [i "trait", i t.ident] ++ t.generics.printParams ++
-  (if t.supertraits.isEmpty then [] else p ':' :: printBounds t.supertraits t.strail) ++
+  (if t.colon || !t.supertraits.isEmpty then p ':' :: printBounds t.supertraits t.strail else []) ++
   t.generics.printWhere ++ [braces (t.members.flatMap TraitMember.print)]
 
 /-- Result of `syn::Signature` parsing at a position of a module / impl body:
